@@ -29,11 +29,11 @@ PROPERTY = 'C11'
 LEVEL = 'model_checking'
 RULE = ('(b) E3 breadth-first search over operation histories on the real CachingStreamWrapper over a 10-octet raw '
         'non-seekable stream with io.DEFAULT_BUFFER_SIZE patched to 3: alphabet {read(n) n in {0,1,2,3,-1}, peek(n) n in '
-        '{1,2,3}, tell, set mark at the current position, seek back to every p with mark <= p <= current}, depth 6 (quick) '
+        '{1,2,3}, read/peek while the raw source answers "nothing yet", tell, set mark at the current position, seek back to every p with mark <= p <= current}, depth 6 (quick) '
         '/ 8 (thorough), every step compared with io.BytesIO over the same octets driven by the same operations '
         '(positions compared relative to the last renumbering reported by the wrapper). States merged on (reference '
         'position, mark, raw wrapper cache contents and offsets). (a) E1: every corpus encoding (cover set all forms, '
-        'valid and damaged, + elements of 8191/8192/8193/20000 octets and deep/wide containers) presented as 11 '
+        'valid and damaged, + elements of 8191/8192/8193/20000 octets, single elements of 2**16+1, 2**20+1, 2**24+1 octets, and deep/wide containers) presented as 11 '
         'substrate kinds {bytes, BytesIO, OctetString, Any, real file, BufferedReader over non-seekable raw, gzip file, '
         'zip member, bare non-seekable stream, unbuffered io.RawIOBase that cannot seek, unbuffered disk file} x {one-shot, streaming} x io.DEFAULT_BUFFER_SIZE in {2,3,5,16, default}: '
         'identical (abstract value shapes, remainder, error class). Distinct = digest of (bytes, kind, buffer size, mode) / '
@@ -51,8 +51,12 @@ DATA = bytes(range(0x41, 0x4B))      # 10 distinct octets
 class RawNS(object):
     def __init__(self, data):
         self._b = io.BytesIO(data)
+        self.pending = False       # a non-blocking source: the next read finds nothing there yet
 
     def read(self, n=-1):
+        if self.pending:
+            self.pending = False
+            return None
         return self._b.read(n)
 
     def seekable(self):
@@ -69,11 +73,13 @@ class WrapperSubject(object):
 
     def fresh(self):
         w = streaming.CachingStreamWrapper(RawNS(DATA))
-        return {'w': w, 'base': 0}, (0, 0)
+        return {'w': w, 'base': 0}, (0, 0, 0)
 
     def enabled(self, m):
-        pos, mark = m
-        ops = ['read(1)', 'read(2)', 'read(3)', 'read(0)', 'read(-1)', 'peek(1)', 'peek(2)', 'peek(3)', 'tell', 'mark']
+        pos, mark, hw = m
+        ops = ['read(1)', 'read(2)', 'read(3)', 'read(0)', 'read(-1)', 'peek(1)', 'peek(2)', 'peek(3)', 'tell', 'mark',
+               # the same while the raw source has nothing yet ("pending"): what is cached is served, else None
+               'readp(2)', 'readp(-1)', 'peekp(1)', 'peekp(3)']
         for p in range(mark, pos):
             ops.append('seek(%d)' % p)
         if pos > mark:
@@ -81,7 +87,19 @@ class WrapperSubject(object):
         return ops
 
     def expect(self, label, m):
-        pos, mark = m
+        pos, mark, hw = m
+        if label.startswith(('readp', 'peekp')):
+            n = int(label.split('(')[1][:-1])
+            avail = hw - pos
+            if n != -1 and n <= avail:
+                out, newpos = DATA[pos:pos + n], pos + n
+            elif avail > 0:
+                out, newpos = DATA[pos:hw], hw
+            else:
+                out, newpos = (None if n != 0 else b''), pos
+            if label.startswith('peekp'):
+                newpos = pos
+            return (newpos, mark, hw), ('ok', out)
         ref = io.BytesIO(DATA)
         ref.seek(pos)
         name, arg = label.split('(')[0], None
@@ -89,30 +107,36 @@ class WrapperSubject(object):
             arg = int(label.split('(')[1][:-1])
         if name == 'read':
             out = ref.read(arg)
-            return (ref.tell(), mark), ('ok', out)
+            return (ref.tell(), mark, max(hw, ref.tell())), ('ok', out)
         if name == 'peek':
             out = ref.read(arg)
-            return (pos, mark), ('ok', out)
+            return (pos, mark, max(hw, ref.tell())), ('ok', out)
         if name == 'tell':
             return m, ('ok', pos)
         if name == 'mark':
-            return (pos, pos), ('ok', ANY)
+            return (pos, pos, hw), ('ok', ANY)
         if name == 'seek':
-            return (arg, mark), ('ok', ANY)
+            return (arg, mark, hw), ('ok', ANY)
         if name == 'seekcur':
-            return (pos - 1, mark), ('ok', ANY)
+            return (pos - 1, mark, hw), ('ok', ANY)
         raise ValueError(label)
 
     def apply(self, label, obj, m):
         w = obj['w']
         base = obj['base']
-        pos, mark = m
+        pos, mark, hw = m
         name, arg = label.split('(')[0], None
         if '(' in label:
             arg = int(label.split('(')[1][:-1])
         old = io.DEFAULT_BUFFER_SIZE
         io.DEFAULT_BUFFER_SIZE = self.bufsize
         try:
+            if name in ('readp', 'peekp'):
+                w._raw.pending = True
+                try:
+                    return obj, ('ok', w.read(arg) if name == 'readp' else w.peek(arg))
+                finally:
+                    w._raw.pending = False
             if name == 'read':
                 return obj, ('ok', w.read(arg))
             if name == 'peek':
@@ -275,6 +299,9 @@ def corpus_a(tier):
     for n in (8191, 8192, 8193, 20000):
         T = U.OCTS
         yield 'big-octs-%d' % n, T, M.der(T, bytes(i & 0xFF for i in range(n)))
+    # single elements just beyond powers of two up to 16 MiB (any internal chunking or clamping of raw reads)
+    for n in ((2 ** 16 + 1, 2 ** 20 + 1, 2 ** 24 + 1) if tier == 'quick' else (2 ** 16 + 1, 2 ** 20 + 1, 2 ** 22 + 1, 2 ** 24 + 1, 2 ** 25 + 1)):
+        yield 'huge-octs-%d' % n, U.OCTS, b'\x04' + M.length_octets(n) + bytes(n)
     T = ('SEQ', (('k', U.INT, 'R', None), ('any', U.ANY, 'R', None)))
     for n in (8190, 20000):
         inner = M.der(U.OCTS, b'\x01' * n)
